@@ -38,6 +38,14 @@
 #include "celeritas/em/interactor/MuBremsstrahlungInteractor.hh"
 #include "celeritas/em/interactor/RayleighInteractor.hh"
 #include "celeritas/em/interactor/SeltzerBergerInteractor.hh"
+#include "celeritas/em/interactor/detail/SBEnergySampler.hh"
+#include "celeritas/em/interactor/detail/RBEnergySampler.hh"
+#include "celeritas/em/interactor/detail/SBPositronXsCorrector.hh"
+#include "celeritas/em/interactor/detail/PhysicsConstants.hh"
+#include "celeritas/em/distribution/SBEnergyDistHelper.hh"
+#include "celeritas/em/xs/RBDiffXsCalculator.hh"
+#include "celeritas/random/distribution/ReciprocalDistribution.hh"
+#include "celeritas/random/distribution/RejectionSampler.hh"
 #include "celeritas/em/interactor/RelativisticBremInteractor.hh"
 #include "celeritas/em/interactor/CombinedBremInteractor.hh"
 #include "celeritas/em/interactor/LivermorePEInteractor.hh"
@@ -89,7 +97,8 @@ enum class Mats
     general,
     cu,
     k,
-    cu_iso
+    cu_iso,
+    k2
 };
 
 class Fix : public InteractorHostTestBase
@@ -134,6 +143,14 @@ class Fix : public InteractorHostTestBase
                     {native_value_from(MolCcDensity{1e-5}), 293., solid, {{ElementId{0}, 1.0}}, Label{"K"}}};
                 names_ = {"K"};
                 break;
+            case Mats::k2:
+                // the SAME element in two materials (per-material production cuts, see set_cut2)
+                mi.elements = {{AtomicNumber{19}, AmuMass{39.0983}, {}, Label{"K"}}};
+                mi.materials = {
+                    {native_value_from(MolCcDensity{1e-5}), 293., solid, {{ElementId{0}, 1.0}}, Label{"K-a"}},
+                    {native_value_from(MolCcDensity{2e-5}), 293., solid, {{ElementId{0}, 1.0}}, Label{"K-b"}}};
+                names_ = {"K-a", "K-b"};
+                break;
             case Mats::cu_iso:
                 mi.isotopes = {{AtomicNumber{29}, AtomicNumber{63}, MevEnergy{551.384}, MevEnergy{6.122},
                                 MevEnergy{10.864}, MevMass{58618.5}, Label{"63Cu"}},
@@ -176,6 +193,24 @@ class Fix : public InteractorHostTestBase
         cut_g_ = cut_g;
         cut_p_ = cut_p;
         have_cut_ = true;
+    }
+
+    //! per-material cuts for the two-material fixture: material `mat` gets (cut, cut_g), the other (other_e, other_g)
+    void set_cut2(int mat, double cut, double cut_g, double cut_p, double other_e, double other_g)
+    {
+        CutoffParams::Input ci;
+        ci.materials = this->material_params();
+        ci.particles = this->particle_params();
+        auto mc = [mat](double own, double other) {
+            CutoffParams::MaterialCutoffs v(2, ParticleCutoff{MevEnergy{other}, 0.1});
+            v[mat] = ParticleCutoff{MevEnergy{own}, 0.1};
+            return v;
+        };
+        ci.cutoffs.insert({pdg::electron(), mc(cut, other_e)});
+        ci.cutoffs.insert({pdg::positron(), mc(cut_p, cut_p)});
+        ci.cutoffs.insert({pdg::gamma(), mc(cut_g, other_g)});
+        this->set_cutoff_params(ci);
+        have_cut_ = false;
     }
 
     //! Prepare allocator (capacity, pre-existing size), particle, material
@@ -238,7 +273,7 @@ class Fix : public InteractorHostTestBase
 
 Fix& fixture(Mats m)
 {
-    static std::unique_ptr<Fix> f[4];
+    static std::unique_ptr<Fix> f[5];
     auto& p = f[int(m)];
     if (!p)
         p = std::make_unique<Fix>(m);
@@ -434,9 +469,13 @@ Interaction run_case(Case const& c, verif::ReplayEngine& rng, Fix*& used)
     if (m == "livermore")
     {
         // variant: 0 = no relaxation, 1 = fluorescence only, 2 = fluorescence + auger
-        Fix& f = fixture(Mats::k);
+        // p[12], p[13] present: two materials sharing the element, the OTHER material's (e-, gamma) cuts
+        bool two_mats = c.p.size() > 13;
+        Fix& f = fixture(two_mats ? Mats::k2 : Mats::k);
         used = &f;
         f.prepare(c, pdg::gamma());
+        if (two_mats)
+            f.set_cut2(c.mat(), c.cut(), c.cut_g(), c.cut_p(), c.p[12], c.p[13]);
         std::string data_path = Fix::test_data_path("celeritas", "");
         if (!f.lpe_)
         {
@@ -456,7 +495,8 @@ Interaction run_case(Case const& c, verif::ReplayEngine& rng, Fix*& used)
                 f.lpe_->host_ref(), relaxation, el, f.particle_track(), cv, f.dir_, f.secondary_allocator());
             return interact(rng);
         }
-        auto& relax = f.relax_[std::make_tuple(v, c.cut(), c.cut_g())];
+        std::shared_ptr<AtomicRelaxationParams> relax_uncached;
+        auto& relax = two_mats ? relax_uncached : f.relax_[std::make_tuple(v, c.cut(), c.cut_g())];
         if (!relax)
         {
             AtomicRelaxationReader rd(data_path.c_str(), data_path.c_str());
@@ -520,6 +560,94 @@ Interaction run_case(Case const& c, verif::ReplayEngine& rng, Fix*& used)
     }
     throw std::runtime_error("unknown model " + m);
 }
+
+//---------------------------------------------------------------------------//
+// Photon-energy samplers of the bremsstrahlung models alone (detail::SBEnergySampler, detail::RBEnergySampler).
+// The REAL sampler is run on the replayed stream; the cross-section oracle values of every iteration (and
+// tmin, tmax, density correction, maximum) are logged by re-running the loop from the sampler's own public
+// components (SBEnergyDistHelper / RBDiffXsCalculator) on a copy of the stream.
+// output: ok <draws> <E_gamma> <draws of the logging loop> <tmin> <tmax> <dens_corr> <xs_max> <n> xs_1..xs_n
+void run_brem_energy(Case const& c)
+{
+    Fix& f = fixture(Mats::cu);
+    bool is_electron = c.variant() % 2 == 0;
+    f.prepare(c, is_electron ? pdg::electron() : pdg::positron());
+    if (!f.imported_processes_set_)
+    {
+        f.brems_processes();
+        f.imported_processes_set_ = true;
+    }
+    auto cv = f.cutoff_view(c);
+    auto mv = f.material_view();
+    ElementComponentId ec(c.elcomp());
+    auto const& particle = f.particle_track();
+    double const inc_e = value_as<MevEnergy>(particle.energy());
+    verif::ReplayEngine rng(c.u), rng2(c.u);
+    std::vector<double> xs_log;
+    double result = 0, tmin = 0, tmax = 0, dc = 0, xs_max = 0;
+    if (c.model == "sbenergy")
+    {
+        if (!f.sb_)
+        {
+            std::string data_path = Fix::test_data_path("celeritas", "");
+            SeltzerBergerReader rd(data_path.c_str());
+            f.sb_ = std::make_shared<SeltzerBergerModel>(
+                ActionId{0}, *f.particle_params(), *f.material_params(), f.imported_processes(), rd);
+        }
+        auto const& shared = f.sb_->host_ref();
+        MevEnergy gamma_cutoff = cv.energy(shared.ids.gamma);
+        detail::SBEnergySampler sample(shared.differential_xs, particle, gamma_cutoff, mv, ec, is_electron);
+        result = sample(rng).value();
+        // logging loop
+        dc = mv.electron_density() * detail::migdal_constant() * ipow<2>(value_as<MevEnergy>(particle.total_energy()));
+        SBEnergyDistHelper helper(shared.differential_xs, particle.energy(), mv.element_id(ec),
+                                  SBEnergyDistHelper::EnergySq{dc}, gamma_cutoff);
+        detail::SBPositronXsCorrector scale(particle.mass(), mv.make_element_view(ec), gamma_cutoff, particle.energy());
+        tmin = gamma_cutoff.value();
+        tmax = inc_e;
+        xs_max = helper.max_xs().value();
+        bool rej = true;
+        while (rej)
+        {
+            MevEnergy e = helper.sample_exit_energy(rng2);
+            double xs = helper.calc_xs(e).value() * (is_electron ? 1.0 : scale(e));
+            xs_log.push_back(xs);
+            rej = RejectionSampler<>(xs, xs_max)(rng2);
+        }
+    }
+    else
+    {
+        bool lpm = c.variant() >= 2;
+        auto& mdl = lpm ? f.rb_lpm_ : f.rb_;
+        if (!mdl)
+        {
+            mdl = std::make_shared<RelativisticBremModel>(
+                ActionId{0}, *f.particle_params(), *f.material_params(), f.imported_processes(), lpm);
+        }
+        auto const& shared = mdl->host_ref();
+        detail::RBEnergySampler sample(shared, particle, cv, mv, ec);
+        result = sample(rng).value();
+        RBDiffXsCalculator calc(shared, particle, mv, ec);
+        dc = calc.density_correction();
+        xs_max = calc.maximum_value();
+        tmin = std::min(cv.energy(shared.ids.gamma).value(), inc_e);
+        tmax = std::min(value_as<MevEnergy>(detail::high_energy_limit()), inc_e);
+        ReciprocalDistribution<real_type> sample_esq(tmin * tmin + dc, tmax * tmax + dc);
+        bool rej = true;
+        while (rej)
+        {
+            double e = std::sqrt(sample_esq(rng2) - dc);
+            double xs = calc(MevEnergy{e});
+            xs_log.push_back(xs);
+            rej = RejectionSampler<>(xs, xs_max)(rng2);
+        }
+    }
+    std::cout << "ok " << rng.consumed() << " " << hex(result) << " " << rng2.consumed() << " " << hex(tmin) << " "
+              << hex(tmax) << " " << hex(dc) << " " << hex(xs_max) << " " << xs_log.size();
+    for (double x : xs_log)
+        std::cout << " " << hex(x);
+    std::cout << "\n";
+}
 }  // namespace
 
 int main()
@@ -573,6 +701,26 @@ int main()
         }
         c.p = verif::rdvec(is);
         c.u = verif::rdvec(is);
+        if (c.model == "sbenergy" || c.model == "rbenergy")
+        {
+            try
+            {
+                run_brem_energy(c);
+            }
+            catch (verif::StreamExhausted const&)
+            {
+                std::cout << "exhausted\n";
+            }
+            catch (std::exception const& e)
+            {
+                std::string w = e.what();
+                for (auto& ch : w)
+                    if (ch == '\n')
+                        ch = ' ';
+                std::cout << "error " << w.substr(0, 300) << "\n";
+            }
+            continue;
+        }
         verif::ReplayEngine rng(c.u);
         Fix* used = nullptr;
         try
